@@ -554,7 +554,7 @@ def _to_shape_list(region_list, coordinate_system='fk5'):
         meta.update(region.visual)
 
         if reg_type == 'text':
-            meta['text'] = meta.get('text', meta.pop('label', ''))
+            meta['text'] = meta.get('text', meta.pop('label', region.text))
 
         include = region.meta.get('include', True)
 
